@@ -139,4 +139,39 @@ export function f(int i, int[2] arr) -> int { return bump(arr, i) + arr[i]; }"""
 P("call-mixed-args", """function mix(float2 v, int[2] t, float s) -> float { return v[0] * s + t[1]; }
 export function f(float2 v, float s) -> float { int[2] t; t[1] = 3; return mix(v, t, s); }""", args=[dict(v=[1.0, 2.0], s=2.0)], expect=[5.0])
 
+
+# ---- shapes that need a "second instance" or an interaction of two passes (added after seeded changes were missed)
+M3 = [[1.0, 2.0, 3.0], [4.0, 5.0, 6.0], [7.0, 8.0, 9.0]]
+P("struct-copy-then-member-store-literal",
+  "struct L { int kind; float intensity; }\nexport function f(int n) -> float { L a; a.kind = n; a.intensity = 2.5; L b; b = a; b.kind = 7; b.intensity = 1; return b.kind + b.intensity; }",
+  args=[dict(n=3), dict(n=0)], expect=[8.0, 8.0])      # (whether `a` is affected by the store through `b` is not stated by any property: not read)
+P("struct-from-call-then-member-store",
+  "struct L { int kind; float w; }\nfunction make(int n) -> L { L r; r.kind = n; r.w = 0.5; return r; }\nexport function f(int n) -> float { L b; b = make(n); b.kind = 9; return b.kind + b.w; }",
+  args=[dict(n=3)], expect=[9.5])
+P("two-functions-rowwise-matrix-ops",
+  "function g(float3x3 a, float3x3 b) -> float3x3 { return a - b; }\nfunction h(float3x3 a, float s) -> float3x3 { return a * s; }\nexport function f(float3x3 a, float3x3 b, float s) -> float3x3 { float3x3 c = a + b; return g(c, b) + h(b, s) / s; }",
+  args=[dict(a=M3, b=[[1.0, 0.0, 0.0], [0.0, 1.0, 0.0], [0.0, 0.0, 1.0]], s=2.0)],
+  expect=[[[2.0, 2.0, 3.0], [4.0, 6.0, 6.0], [7.0, 8.0, 10.0]]])
+P("two-functions-scalar-times-matrix",
+  "function h(float s, float3x3 a) -> float3x3 { return s * a; }\nexport function f(float3x3 a, float s) -> float3x3 { float3x3 c = s * a; return h(s, a) - c + a; }",
+  args=[dict(a=M3, s=2.0)], expect=[M3])
+P("loops-in-two-functions-with-break",
+  "function first(int n) -> int { int s = 0; for (int i = 0; i < n; ++i) { if (i == 2) { break; } s = s + 10; } int k = 5; return s + k; }\nexport function f(int n) -> int { int t = first(n); int j = 0; while (j < 3) { j = j + 1; if (j == 2) { continue; } t = t + j; } do { t = t + 100; } while (t < 0) return t; }",
+  args=[dict(n=4), dict(n=1)], expect=[129, 119])
+P("float-counters-division",
+  "export function f(int n) -> float { float num; float den; for (int i = 0; i < n; ++i) { num++; } den++; den++; return num / den; }",
+  args=[dict(n=3), dict(n=1)], expect=[1.5, 0.5])
+P("float-operand-of-logical-op",
+  "export function f(float a, float b) -> int { int r = 0; if (a && b) { r = r + 1; } if (a || 0) { r = r + 10; } return r; }",
+  args=[dict(a=0.5, b=0.25), dict(a=0.0, b=0.75)], expect=[11, 0])
+P("sibling-scopes-reuse-name",
+  "export function f(int a) -> int { int r = 0; { int t; t = a; } { int t; r = t + 1; } { int[3] u; u[2] = a; } { int[3] u; r = r + u[2]; } return r; }",
+  args=[dict(a=41)], expect=[1])
+P("arity-overloads",
+  "function scale(float x) -> float { return x * 2.0; }\nfunction scale(float x, float k) -> float { return x * k; }\nexport function f(float x, int k) -> float { return scale(x, k) + scale(x); }",
+  args=[dict(x=1.5, k=10)], expect=[18.0])
+P("recursion-local-nested-array",
+  "function rec(int n) -> int { if (n <= 0) { return 0; } int[2][2] a; int before = a[1][0]; a[1][0] = n * 10; int inner = rec(n - 1); return before + a[1][0] + inner; }\nexport function f(int n) -> int { return rec(n) + rec(n); }",
+  args=[dict(n=3)], expect=[120])
+
 PROGRAMS = [(e["name"], e["src"]) for e in ENTRIES]
